@@ -40,6 +40,8 @@ def run(F, rep, tier):
     no_allocation(F, rep)
     annotation_inert_in_resolver(F, rep)
     same_node(F, rep)
+    import c04
+    c04.annotation_purity(F, rep, "ANNOTATION-PERMISSIVE")
 
 
 def no_type_flow(F, rep):
